@@ -10,9 +10,7 @@ ALL = [f"C{i:02d}" for i in range(1, 40)]
 DEFAULT_NA = "no check built in the time available: the property is not claimed (technique would apply, see DESIGN.md §6)"
 NA_REASONS: dict[str, str] = {}
 
-ENGINES = {
-    "Mount": ["C38"],
-}
+ENGINES: dict[str, list[str]] = {}  # filled from the property modules' META["engine"]
 
 
 def hook_commits():
@@ -27,6 +25,7 @@ def main():
             na.append({"property_id": pid, "reason": NA_REASONS.get(pid, DEFAULT_NA)})
             continue
         m = importlib.import_module(f"harness.props.{pid}").META
+        ENGINES.setdefault(m.get("engine", "Lean"), []).append(pid)
         checks.append(
             {
                 "property_id": pid,
